@@ -50,6 +50,18 @@ CHECKS = {
  "C07": dict(level="exploration", technique="coverage-guided fuzzing (libFuzzer target fuzz_dfs calling main() in-process, oracle in target) + property-based testing with structure-aware mutation of generated images and hostile command lines",
    text="Generated images of every container receive structure-aware mutations (truncation at structure boundaries, hostile header/catalogue fields, flips, splices), optionally gzip-compressed/corrupted, and are run through 19 command lines on the ASan+UBSan, default and NDEBUG builds; command lines are drawn from the real option grammar with hostile values. fuzz_dfs runs main() in-process under libFuzzer with time-out and malloc limits. Oracle: exit 0/1/2, no signal/abort/sanitizer report/time-out/excess memory, diagnostic whenever the status is non-zero.",
    note="Trusted: sanitizers; 10 s time-out confirmed three times; peak RSS measured with time(1) on a quarter of the cases.", ref="4 C07", engine="E-hyp + E-fuzz"),
+ "C10": dict(level="exploration", technique="property-based testing (Hypothesis): differential X vs X.gz, and corruption/truncation judged by an independent inflater (Python zlib) as referee",
+   text="Images of every container compressed at all levels with optional header fields and 1-3 members must give identical stdout/exit; every truncation point (all for small files), single-bit flips, raw-as-.gz and empty files must be rejected with a diagnostic whenever the referee rejects them, and behave as intact when the referee still yields the same bytes.",
+   note="Trusted: Python zlib as referee; trailing garbage after the last member is not judged.", ref="4 C10"),
+ "C11": dict(level="fault_enumeration", technique="fault enumeration: the byte offset at which the output device starts refusing writes is enumerated (RLIMIT_FSIZE / /dev/full) for generated (command, input) pairs",
+   text="For each drawn command form and input, every fault offset 0..64, L-1, L, L+1, all 4096-multiples +-1 and 20 drawn offsets is injected; incomplete output must give a non-zero exit status and a diagnostic; complete output must give exit 0.",
+   note="Fault model: writes succeed up to k bytes and then fail with EFBIG (regular file under RLIMIT_FSIZE) or always fail (/dev/full); SIGPIPE not used. Exhaustive over k <= 64 per pair, sampled beyond.", ref="4 C11"),
+ "C18": dict(level="exploration", technique="property-based testing (Hypothesis): metamorphic relation between runs with and without diagnostic/presentation options (pipe and pseudo-terminal)",
+   text="--verbose/--show-config in every position must leave stdout and exit status unchanged; --ui and COLUMNS (on a pty) may only change the layout of cat: parsed content equal, other commands byte-identical; repeated runs identical.",
+   note="Trusted: cat content parser; density word and labels count as presentation.", ref="4 C18"),
+ "C19": dict(level="exploration", technique="property-based testing (Hypothesis): differential between the assertion-enabled and the NDEBUG build (+ MSan NDEBUG build of the C tool)",
+   text="Valid and hostile inputs of both tools are run on the default and the NDEBUG build with the same argv[0]; unless the default build stops on a failed assertion, stdout and exit status must be equal and the NDEBUG build must not crash or use uninitialised memory.",
+   note="Trusted: gcc builds of the same tree at -O1 -g and -O2 -g -DNDEBUG.", ref="4 C19"),
 }
 
 def main():
